@@ -686,6 +686,24 @@ impl TypeVar {
         });
     }
 
+    // whether this type variable is, or is reachable from, a component of `ty`
+    fn occurs_in(&self, ty: &PotentialType, visited: &mut HashSet<TypeVar>) -> bool {
+        let components: Vec<&TypeVar> = match ty {
+            PotentialType::Function(_, args, out) => args.iter().chain([out]).collect(),
+            PotentialType::Tuple(_, elems) => elems.iter().collect(),
+            PotentialType::Nominal(_, _, params) => params.iter().collect(),
+            _ => vec![],
+        };
+        components.into_iter().any(|component| {
+            self.0.equiv(&component.0)
+                || (visited.insert(TypeVar(component.0.find()))
+                    && component
+                        .clone_types()
+                        .values()
+                        .any(|ty| self.occurs_in(ty, visited)))
+        })
+    }
+
     fn single(&self) -> Option<PotentialType> {
         let types = self.0.clone_data().types;
         if types.len() == 1 {
@@ -1474,6 +1492,11 @@ pub(crate) fn constrain_because(
         // Since exactly one of the TypeVars is unsolved, its data will be updated with information from the solved TypeVar
         (false, true) => {
             let potential_ty = tyvar2.single().unwrap();
+            // occurs check: a type that contains tyvar1 (e.g. `t = () -> t`) has no finite solution
+            if tyvar1.occurs_in(&potential_ty, &mut HashSet::default()) {
+                ctx.errors.push(Error::InfiniteType { ty: potential_ty });
+                return;
+            }
             tyvar1.0.with_data(|d: &mut TypeVarData| {
                 if d.types.is_empty() {
                     assert!(!d.locked);
@@ -1532,11 +1555,19 @@ fn constrain_locked_typevars(
         // `never` type does not create conflicts: a diverging expression takes on the type
         // it is unified with, so `never` does not stick to a value that is actually produced
         if key1 == TypeKey::Never {
+            if tyvar1.occurs_in(&potential_ty2, &mut HashSet::default()) {
+                ctx.errors.push(Error::InfiniteType { ty: potential_ty2 });
+                return;
+            }
             tyvar1.0.with_data(|d| {
                 d.types.remove(&key1);
                 d.extend(potential_ty2);
             });
         } else if key2 == TypeKey::Never {
+            if tyvar2.occurs_in(&potential_ty1, &mut HashSet::default()) {
+                ctx.errors.push(Error::InfiniteType { ty: potential_ty1 });
+                return;
+            }
             tyvar2.0.with_data(|d| {
                 d.types.remove(&key2);
                 d.extend(potential_ty1);
